@@ -55,7 +55,7 @@ def post(recs, merged):
         n[t] += 1
         cls, acc = r.get("cls"), r["acc"]
         if t == "v":
-            valid = ref.verify_ref(K.m, K.sig, _data(r, ref), r["t"])
+            valid = ref.verify_ref(K.m, K.sig, _data(r, ref), r["txt"])
             if cls in ("honest", "equivalent") and not valid:
                 dis.append(("verify: harness says %s, reference says invalid" % cls, r))
             elif cls == "tamper" and valid:
@@ -63,7 +63,7 @@ def post(recs, merged):
             if acc and not valid and cls != "tamper":
                 viol("C10/ref/verify-accepted-invalid", "verify() accepted what the reference PRab verification refuses", r, {})
         elif t == "d":
-            xs = ref.decrypt_ref(K, r["t"])
+            xs = ref.decrypt_ref(K, r["txt"])
             valid = len(xs) == 1
             if cls in ("honest", "equivalent") and (not valid or xs[0].hex() != r["x"]):
                 dis.append(("decrypt: harness says %s, reference does not recover x (%d roots pass)" % (cls, len(xs)), r))
@@ -118,17 +118,21 @@ def post(recs, merged):
 def spec(tier, seed, repo):
     quick = tier == "quick"
     floors = {
-        "sig_roundtrips": 80 if quick else 300, "sig_root_verified": 300, "enc_roundtrips": 200, "enc_four_root_checks": 200,
+        "sig_roundtrips": 80, "sig_root_verified": 300, "enc_roundtrips": 200, "enc_four_root_checks": 200,
         "enc_valid_root_at_library_position_0": 5, "enc_valid_root_at_library_position_1": 5,
         "enc_valid_root_at_library_position_2": 5, "enc_valid_root_at_library_position_3": 5,
         "enc_plaintext_all_zero": 4, "enc_plaintext_all_ff": 4,
-        "check_generated": 8, "sig_tamper_refused": 800, "enc_tamper_refused": 500, "enc_forged_redundancy_refused": 200,
-        "sig_forged_w": 10, "sig_forged_r": 10, "sig_forged_gamma": 10, "enc_tamper_other_residue": 100,
-        "key_tamper_check_false": 1000, "pub_key_tamper_sets": 8, "sec_key_tamper_sets": 8,
-        "nizk_replica_ok": 3, "resigned_fewer-rounds": 20, "resigned_proof-value": 12, "resigned_y": 8,
-        "resign_control_ok": 8, "resigned_more_rounds_accepted": 3,
-        "pub_field_nizk": 200, "sig_field_keyid": 50, "sig_field_data": 50, "sig_field_key": 20, "enc_field_key": 10,
+        "check_generated": 10, "sig_tamper_refused": 600, "enc_tamper_refused": 400, "enc_forged_redundancy_refused": 150,
+        "sig_forged_w": 10, "sig_forged_r": 10, "sig_forged_gamma": 10, "enc_tamper_other_residue": 80,
+        "key_tamper_check_false": 1000, "pub_key_tamper_sets": 8, "sec_key_tamper_sets": 5,
+        "nizk_replica_ok": 3, "resigned_fewer-rounds": 12, "resigned_proof-value": 10, "resigned_y": 6,
+        "resign_control_ok": 6, "resigned_more_rounds_accepted": 3,
+        "pub_field_nizk": 200, "sig_field_keyid": 50, "sig_field_keyid-length": 30, "enc_field_keyid-length": 20,
+        "sig_field_data": 50, "sig_field_key": 20, "enc_field_key": 10, "keygen_424": 1, "keygen_672": 1, "keygen_1024n": 1,
     }
+    if not quick:
+        floors.update({"keygen_2048": 1, "keygen_2048n": 1, "keys_generated": 60, "nizk_value_positions_resigned": 1200,
+                       "sig_tamper_refused": 3000, "key_tamper_check_false": 10000})
     return dict(
         stages=[stage("w_c10", repo, nshards=16, case_timeout=600 if quick else 2400, total_timeout=7200, env=ENV)],
         level="fault_enumeration",
